@@ -232,6 +232,56 @@ T('c20-t-path-none-first', ['C20'], 'middleware.py',
   "        if path is not None and path.startswith(self.engineio_path):",
   "        if not (path is None) and path.startswith(self.engineio_path):")
 
+# ------------------------------------------------------------------ round-5 rules
+B('c05-b-reason-dup', ['C05'], 'base_server.py', "TRANSPORT_ERROR = 'transport error'",
+  "TRANSPORT_ERROR = 'transport close'", 'C05.reason-texts')
+B('c05-b-unawaited-close', ['C05'], 'async_server.py',
+  "                            await socket.close(\n                                wait=False,\n                                reason=self.reason.SERVER_DISCONNECT)",
+  "                            socket.close(\n                                wait=False,\n                                reason=self.reason.SERVER_DISCONNECT)",
+  'C05.awaited')
+B('c05-b-asgi-close-narrow', ['C05', 'C16'], 'async_drivers/asgi.py',
+  "        except Exception:\n            # if the socket is already close we don't care",
+  "        except OSError:\n            # if the socket is already close we don't care")
+T('c05-t-asgi-close-base', ['C05', 'C16'], 'async_drivers/asgi.py',
+  "        except Exception:\n            # if the socket is already close we don't care",
+  "        except (OSError, RuntimeError, Exception):\n            # if the socket is already close we don't care")
+B('c07-b-clamp-timeout', ['C07'], 'base_server.py', "        self.ping_timeout = ping_timeout\n",
+  "        self.ping_timeout = min(ping_timeout, self.ping_interval)\n", 'C07.config')
+B('c07-b-rearm-on-upgrade', ['C07'], 'socket.py',
+  "            self.upgraded = True\n            self.upgrading = False\n        else:",
+  "            self.upgraded = True\n            self.upgrading = False\n            self.schedule_ping()\n        else:",
+  'C07.arm-sites')
+B('c06-b-switch-order', ['C06'], 'socket.py',
+  "            self.upgraded = True\n            self.upgrading = False\n        else:",
+  "            self.upgrading = False\n            self.upgraded = True\n        else:", 'C06.switch-order')
+T('c06-t-switch-order-async', ['C06'], 'async_socket.py',
+  "            self.upgraded = True\n            self.upgrading = False\n        else:",
+  "            self.upgrading = False\n            self.upgraded = True\n        else:")
+B('c04-b-asgi-wait-key', ['C04'], 'async_drivers/asgi.py',
+  "        return event.get('bytes') or event.get('text')",
+  "        if 'bytes' in event:\n            return event['bytes']\n        return event.get('text')",
+  'C04.driver-wait')
+T('c04-t-asgi-wait-value', ['C04'], 'async_drivers/asgi.py',
+  "        return event.get('bytes') or event.get('text')",
+  "        data = event.get('bytes')\n        if not data:\n            data = event.get('text')\n        return data")
+B('c11-b-asgi-reason-slice', ['C11'], 'async_drivers/asgi.py',
+  "                                            'reason': reason})",
+  "                                            'reason': reason[:123]})", 'C11.reject-value')
+B('c16-b-poll-cancel', ['C16'], 'async_socket.py',
+  "        except (asyncio.TimeoutError, asyncio.CancelledError):",
+  "        except asyncio.TimeoutError:", 'C16.poll-cancel')
+T('c16-t-poll-cancel-order', ['C16', 'C07', 'C03'], 'async_socket.py',
+  "        except (asyncio.TimeoutError, asyncio.CancelledError):",
+  "        except (asyncio.CancelledError, asyncio.TimeoutError):")
+B('c08-b-decode-filter', ['C08', 'C01', 'C02'], 'payload.py',
+  "        encoded_packets = encoded_payload.split('\\x1e')",
+  "        encoded_packets = [e for e in encoded_payload.split('\\x1e') if e]")
+B('c20-b-unquote-after-test', ['C20'], 'static_files.py',
+  "        f['filename'] += extra_path\n", "        f['filename'] += extra_path.replace('%2e', '.')\n",
+  'C20.containment')
+T('c20-t-filename-local', ['C20'], 'static_files.py',
+  "        f['filename'] += extra_path\n", "        f['filename'] = f['filename'] + extra_path\n")
+
 if __name__ == '__main__':
     out = os.path.join(os.path.dirname(os.path.abspath(__file__)), 'catalogue.json')
     ids = [e['id'] for e in E]
